@@ -11,6 +11,9 @@ R05b acquiring: in visit_BlockNode, on the path where the lock was acquired the 
      body is reachable only when node.block_ended holds (the body is followed by the block_ended wait).
 R05c try_acquire_lock takes the lock only if every locked block is an ancestor of the node (the
      single-chain condition).
+R05d End block ends an *active* block: visit_EndBlockNode chooses among the locked blocks that are not already ended (an ended
+     block keeps its lock until the instruction it is executing finishes; ending it a second time leaves the enclosing block
+     running for ever).
 Decides these shapes; the single-chain invariant over all reachable interpreter states is data-dependent.
 """
 from __future__ import annotations
@@ -210,6 +213,7 @@ def run(ctx) -> None:
                          "blocks that are not nested in each other are active at once")
         else:
             ctx.fail("R05c", vb, lp.ast, inst, f"the iterated expression `{src[1]}` is not derived from the lock flags")
+    _r05d(ctx, pi)
 
 
 def _lock_source(ctx, expr, f, depth):
@@ -243,3 +247,29 @@ def _lock_source(ctx, expr, f, depth):
             if o[0] == kind:
                 return o
     return outs[0]
+
+
+def _r05d(ctx, pi):
+    ctx.rule("R05d", "End block chooses among locked blocks that have not been ended")
+    eb = pi.methods["visit_EndBlockNode"]
+    from ..util import value_leaves, local_all_defs
+    ended = [t for t, v, st in __import__("opstatic.util", fromlist=["assigned_attrs"]).assigned_attrs(eb.node)
+             if t.attr == "block_ended" and isinstance(v, ast.Constant) and v.value is True]
+    if not ended:
+        raise AnchorError("visit_EndBlockNode: <block>.block_ended = True not found")
+    blk = ended[0].value
+    inst = "visit_EndBlockNode: the block to end is taken from the locked blocks that are not block_ended"
+    srcs = [norm(l) for l, _ in value_leaves(ctx.res, blk, eb)]
+    defs = local_all_defs(eb)
+    # the list the block is taken from: a local indexed with a constant
+    lists = set()
+    for l, _ in value_leaves(ctx.res, blk, eb):
+        if isinstance(l, ast.Subscript) and isinstance(l.value, ast.Name):
+            lists.add(l.value.id)
+    good = bool(lists) and all(any("block_ended" in norm(d) for d in defs.get(nm, [])) for nm in lists)
+    if good:
+        ctx.ok("R05d", inst)
+    else:
+        ctx.fail("R05d", eb, ended[0], inst, f"the block comes from {srcs[:2]} without excluding blocks that were already ended: a second End block "
+                 "while the ended inner block still holds its lock ends that block again (duplicate block_end) and the enclosing block "
+                 "is never ended")
